@@ -92,9 +92,10 @@ def run(pid, tier, seed, replay):
         scen_fn=scenario, n_random=1200 if quick else 20000, n_hist=1200 if quick else 15000,
         fam_size=3 if quick else 12, shards=4 if quick else 12, label="run to completion")
     # long self-triggering chains: longer than the recursion limit in RTC mode; validated by TLC too
+    # (rtc=False nests by design - about a dozen Python frames per link -, so that chain stays well below the limit)
     chains = []
     for length, rtc, coro in ([(1500, True, False), (300, True, True), (60, False, False)] if quick else
-                              [(5000, True, False), (5000, True, True), (2000, True, False), (150, False, False)]):
+                              [(5000, True, False), (5000, True, True), (2000, True, False), (60, False, False)]):
         scn = chain_scenario(length, rtc, coro)
         chains.append((scn, rtc))
     for scn, rtc in chains:
@@ -111,6 +112,7 @@ def run(pid, tier, seed, replay):
             continue
         check_chain_depth(chk, scn, res, rtc)
     ec.run_validate(chk, [s for s, _ in chains], "run to completion: long chains", shards=len(chains))
+    ec.nonrtc_leg(chk, rng, 250 if quick else 4000, shards=2 if quick else 8)
     chk.coverage["rule"] = ("family: <=3 states, <=4 callbacks, nested sends from any callback (budget 2), all orders; random: "
                             "1-4 sending callbacks per machine in any group incl. initial enter, fan-out, both engines, "
                             "rtc on/off; chains of 1500..5000 self-triggered events")
